@@ -138,6 +138,13 @@ class Harness:
                             cc, ii = decode(y)
                         got += 1
                         w.event(op="yield", c=cc, i=ii)
+                        if scen.get("uar") == "during" and got in (1, 2):
+                            # the consumer waits for readiness between two results, while workers may be retiring and being
+                            # replaced: every worker that was in a slot when the call was made must have completed begin() when
+                            # it returns (a slot read later holds that worker or, if it retired, its replacement)
+                            snapshot = [p.wid for p in list.__iter__(pool.procs)]
+                            pool.until_all_ready()
+                            w.event(op="all_ready", ws=snapshot)
                         if stop_at == got:
                             break
                     if stop_at is not None:
